@@ -60,6 +60,26 @@ def run():
         steps.append(fn)
 
     @step
+    def _yaml11():
+        # a legal schema text that declares YAML 1.1 is read first (a loader shared between calls must not keep that)
+        Schema.from_yaml("%YAML 1.1\n---\nrules:\n  - path: [a]\n    condition: {value.equal_to: yes}\n")
+
+    @step
+    def _failures():
+        # a lived-in process has also seen specs that were refused
+        for fn, arg in ((DataPath.from_part_specs, ("a", {"type": "set_value"})), (DataPath.from_part_specs, ({"type": "map_value", "keys": 1},)),
+                        (ConditionLike.from_spec, {"value.nope": 1}), (ConditionLike.from_spec, {"value.in": [{"path.bogus.x.y": ["a"]}]}),
+                        (ConditionLike.from_spec, {"and": [{"value.equal_to": 1}, {"value.dtype.equal_to": "nope"}]}),
+                        (Rule.from_spec, {"path": ["a", {"type": "nope"}], "condition": {"value.equal_to": 1}}),
+                        (Rule.from_spec, {"path": ["a"], "condition": {"value.equal_to": 1}, "cast": {"str": "float"}}),
+                        (DataPath.from_spec, {"path.nope": ["a"]}), (ContainerValue.from_spec, {"type": "list_value", "key.equal_to": 1}),
+                        (Schema.from_yaml, "rules:\n  - path: [a]\n")):
+            try:
+                fn(*arg) if isinstance(arg, tuple) else fn(arg)
+            except Exception:
+                pass
+
+    @step
     def _yaml():
         s = Schema.from_yaml(YAML_TEXT)
         for d in DOCS:
